@@ -324,11 +324,14 @@ def run(ctx, rep):
         if pcall and len(pcall["args"]) > 1:
             v = go.prov_operand(inst.parent, pcall["args"][1])
             vals = []
-            if v[0] == "var":
-                vi = go.insts[v[1]]
-                for d in go.prog.defs(vi.key).get(v[2], []):
-                    if d[0] == "s":
-                        vals.append(strip_ids(go.prov_rvalue(vi, vi.body["blocks"][d[1]]["stmts"][d[2]]["rv"], None)))
+            # `x.take()` / mem::take(&mut x): the value handed over is whatever x held
+            while isinstance(v, tuple) and v and v[0] == "call" and re.search(r"Option::<T>::take$|mem::take$", str(v[1])) and v[2]:
+                v = v[2][0]
+            ca = carried_assignments(go, Po.live, v)
+            if ca is None:
+                ca = carried_assignments(go, Po.live, strip_ids(v))
+            if ca is not None:
+                vals = ca
             else:
                 vals = [strip_ids(v)]
             okv = vals and all((x[0] == "agg" and x[2] == "None") or is_field(x, "last") for x in vals)
